@@ -199,12 +199,16 @@ package utils
 //@   loop 2 invariant len(s.IncludedLabels) == 0
 //@   loop 2 invariant wfS(s)
 //@   loop 2 invariant sepS(s, ev) && sepS(s, gl)
+//@   loop 2 invariant freshLists(s)
 //@   loop 2 invariant subset(s.ExcludedLabels, ev)
 //@   loop 2 invariant subset(s.GuaranteedLabels, gl)
 //@   loop 2 invariant forall i int :: 0 <= i && i < len(ev) ==> emptyMatcher(n, ev[i])
 //@   loop 2 invariant forall i int :: 0 <= i && i < len(gl) ==> positiveMatcher(n, gl[i])
 //@   at call append#6 assert s.FixedLabels && len(s.IncludedLabels) == 0 && len(s.GuaranteedLabels) == 0
 //@   at call append#8 assert s.FixedLabels && len(s.IncludedLabels) == 0 && len(s.GuaranteedLabels) == 0
+//@   at call append#10 assert nodup(s.IncludedLabels) && nodup(s.ExcludedLabels) && nodup(s.GuaranteedLabels)
+//@   at call append#10 assert sep(s.IncludedLabels, s.ExcludedLabels) && sep(s.IncludedLabels, s.GuaranteedLabels) && sep(s.ExcludedLabels, s.GuaranteedLabels)
+//@   at call append#10 assert freshLists(s)
 //@   at call append#10 assert !s.FixedLabels && len(s.IncludedLabels) == 0
 //@   at call append#10 assert forall i int :: 0 <= i && i < len(s.ExcludedLabels) ==> emptyMatcher(n, s.ExcludedLabels[i])
 //@   at call append#10 assert forall i int :: 0 <= i && i < len(s.GuaranteedLabels) ==> positiveMatcher(n, s.GuaranteedLabels[i])
@@ -235,8 +239,12 @@ package utils
 //@   assumed ensures modifiesNone(src[0].IncludedLabels)
 //@   ghost res []Source
 //@   after call walkNode set res = result
-//@   loop 1 assumed invariant forall j int :: iter1 <= j && j < len(res) ==> wfS(res[j]) && sepS(res[j], n.Grouping)
+//@   loop 1 assumed invariant forall j int :: iter1 <= j && j < len(res) ==> wfS(res[j]) && sepS(res[j], n.Grouping) && freshLists(res[j])
 //@   loop 1 invariant 0 <= iter1 && iter1 <= len(res) && n == old(n)
+//@   at call append#1 assert nodup(s.IncludedLabels) && nodup(s.ExcludedLabels) && nodup(s.GuaranteedLabels)
+//@   at call append#1 assert sep(s.IncludedLabels, s.ExcludedLabels) && sep(s.IncludedLabels, s.GuaranteedLabels) && sep(s.ExcludedLabels, s.GuaranteedLabels)
+//@   at call append#1 assert freshLists(s)
+//@   at call append#1 assert wfS(s) && freshLists(s)
 //@   at call append#1 assert !n.Without ==> s.FixedLabels
 //@   at call append#1 assert subset(s.GuaranteedLabels, res[iter1-1].GuaranteedLabels)
 //@   at call append#1 assert !n.Without ==> subset(s.GuaranteedLabels, n.Grouping)
@@ -287,16 +295,18 @@ package utils
 //@   at call canJoin#2 assert [C12] sameLists(arg0, r6[iter6-1]) && arg0.FixedLabels == r6[iter6-1].FixedLabels
 //@   at call canJoin#3 assert [C12] sameLists(arg0, r8[iter8-1]) && arg0.FixedLabels == r8[iter8-1].FixedLabels
 //@   at call canJoin#4 assert [C12] sameLists(arg0, r10[iter10-1]) && arg0.FixedLabels == r10[iter10-1].FixedLabels
-//@   loop 3 assumed invariant forall j int :: iter3 <= j && j < len(r4) ==> wfS(r4[j]) && vmSep(r4[j], n.VectorMatching)
+//@   loop 3 assumed invariant forall j int :: iter3 <= j && j < len(r4) ==> wfS(r4[j]) && vmSep(r4[j], n.VectorMatching) && freshLists(r4[j])
 //@   loop 3 invariant 0 <= iter3 && iter3 <= len(r4) && n == old(n)
+//@   at call append#3 assert wfS(s) && freshLists(s)
 //@   at call append#3 assert n.VectorMatching.On ==> s.FixedLabels && (forall x string :: canHave(s, x) ==> in(n.VectorMatching.MatchingLabels, x))
 //@   at call append#3 assert n.VectorMatching.On ==> (forall x string :: in(n.VectorMatching.MatchingLabels, x) ==> canHave(s, x))
 //@   at call append#3 assert !n.VectorMatching.On ==> (forall x string :: in(n.VectorMatching.MatchingLabels, x) ==> !canHave(s, x))
 //@   at call append#3 assert !n.VectorMatching.On ==> (forall x string :: !in(n.VectorMatching.MatchingLabels, x) && canHave(r4[iter3-1], x) ==> canHave(s, x))
 //@   at call append#3 assert subset(s.GuaranteedLabels, r4[iter3-1].GuaranteedLabels)
-//@   loop 6 assumed invariant forall j int :: iter6 <= j && j < len(r6) ==> wfS(r6[j]) && vmSep(r6[j], n.VectorMatching)
+//@   loop 6 assumed invariant forall j int :: iter6 <= j && j < len(r6) ==> wfS(r6[j]) && vmSep(r6[j], n.VectorMatching) && freshLists(r6[j])
 //@   loop 6 assumed invariant forall j int, k int :: iter6 <= j && j < len(r6) && 0 <= k && k < len(lhs) ==> sep(r6[j].IncludedLabels, lhs[k].GuaranteedLabels)
 //@   loop 6 invariant 0 <= iter6 && iter6 <= len(r6) && n == old(n)
+//@   at call append#5 assert wfS(s) && freshLists(s)
 //@   at call append#5 assert s.FixedLabels == r6[iter6-1].FixedLabels && subset(s.GuaranteedLabels, r6[iter6-1].GuaranteedLabels)
 //@   at call unguaranteeCopiedLabels#1 assert arg1 == lhs && arg2 == n.VectorMatching.Include
 //@   at call append#5 assert s.GuaranteedLabels == g6
@@ -307,9 +317,10 @@ package utils
 //@   at call append#5 assert forall x string :: in(n.VectorMatching.Include, x) ==> canHave(s, x)
 //@   at call append#5 assert n.VectorMatching.On ==> (forall x string :: in(n.VectorMatching.MatchingLabels, x) ==> canHave(s, x))
 //@   at call append#5 assert forall x string :: canHave(r6[iter6-1], x) ==> canHave(s, x)
-//@   loop 8 assumed invariant forall j int :: iter8 <= j && j < len(r8) ==> wfS(r8[j]) && vmSep(r8[j], n.VectorMatching)
+//@   loop 8 assumed invariant forall j int :: iter8 <= j && j < len(r8) ==> wfS(r8[j]) && vmSep(r8[j], n.VectorMatching) && freshLists(r8[j])
 //@   loop 8 assumed invariant forall j int, k int :: iter8 <= j && j < len(r8) && 0 <= k && k < len(rhs) ==> sep(r8[j].IncludedLabels, rhs[k].GuaranteedLabels)
 //@   loop 8 invariant 0 <= iter8 && iter8 <= len(r8) && n == old(n)
+//@   at call append#7 assert wfS(s) && freshLists(s)
 //@   at call append#7 assert s.FixedLabels == r8[iter8-1].FixedLabels && subset(s.GuaranteedLabels, r8[iter8-1].GuaranteedLabels)
 //@   at call unguaranteeCopiedLabels#2 assert arg1 == rhs && arg2 == n.VectorMatching.Include
 //@   at call append#7 assert s.GuaranteedLabels == g8
@@ -320,8 +331,9 @@ package utils
 //@   at call append#7 assert forall x string :: in(n.VectorMatching.Include, x) ==> canHave(s, x)
 //@   at call append#7 assert n.VectorMatching.On ==> (forall x string :: in(n.VectorMatching.MatchingLabels, x) ==> canHave(s, x))
 //@   at call append#7 assert forall x string :: canHave(r8[iter8-1], x) ==> canHave(s, x)
-//@   loop 10 assumed invariant forall j int :: iter10 <= j && j < len(r10) ==> wfS(r10[j]) && vmSep(r10[j], n.VectorMatching)
+//@   loop 10 assumed invariant forall j int :: iter10 <= j && j < len(r10) ==> wfS(r10[j]) && vmSep(r10[j], n.VectorMatching) && freshLists(r10[j])
 //@   loop 10 invariant 0 <= iter10 && iter10 <= len(r10) && n == old(n)
+//@   at call append#10 assert wfS(s) && freshLists(s)
 //@   at call append#10 assert forall x string :: canHave(r10[iter10-1], x) ==> canHave(s, x)
 //@   at call append#10 assert s.GuaranteedLabels == r10[iter10-1].GuaranteedLabels
 
@@ -394,26 +406,37 @@ package utils
 //@   loop 1 invariant 0 <= iter1 && iter1 <= len(res) && n == old(n)
 //@   loop 2 assumed invariant forall j int :: iter2 <= j && j < len(res) ==> wfS(res[j]) && freshLists(res[j])
 //@   loop 2 invariant 0 <= iter2 && iter2 <= len(res) && n == old(n)
+//@   at call append#2 assert wfS(s) && freshLists(s)
 //@   loop 3 assumed invariant forall j int :: iter3 <= j && j < len(res) ==> wfS(res[j]) && freshLists(res[j])
 //@   loop 3 invariant 0 <= iter3 && iter3 <= len(res) && n == old(n)
+//@   at call append#3 assert wfS(s) && freshLists(s)
 //@   loop 4 assumed invariant forall j int :: iter4 <= j && j < len(res) ==> wfS(res[j]) && freshLists(res[j])
 //@   loop 4 invariant 0 <= iter4 && iter4 <= len(res) && n == old(n)
+//@   at call append#4 assert wfS(s) && freshLists(s)
 //@   loop 5 assumed invariant forall j int :: iter5 <= j && j < len(res) ==> wfS(res[j]) && freshLists(res[j])
 //@   loop 5 invariant 0 <= iter5 && iter5 <= len(res) && n == old(n)
+//@   at call append#5 assert wfS(s) && freshLists(s)
 //@   loop 6 assumed invariant forall j int :: iter6 <= j && j < len(res) ==> wfS(res[j]) && freshLists(res[j])
 //@   loop 6 invariant 0 <= iter6 && iter6 <= len(res) && n == old(n)
+//@   at call append#6 assert wfS(s) && freshLists(s)
 //@   loop 7 assumed invariant forall j int :: iter7 <= j && j < len(res) ==> wfS(res[j]) && freshLists(res[j])
 //@   loop 7 invariant 0 <= iter7 && iter7 <= len(res) && n == old(n)
+//@   at call append#7 assert wfS(s) && freshLists(s)
 //@   loop 8 assumed invariant forall j int :: iter8 <= j && j < len(res) ==> wfS(res[j]) && freshLists(res[j])
 //@   loop 8 invariant 0 <= iter8 && iter8 <= len(res) && n == old(n)
+//@   at call append#8 assert wfS(s) && freshLists(s)
 //@   loop 9 assumed invariant forall j int :: iter9 <= j && j < len(res) ==> wfS(res[j]) && freshLists(res[j])
 //@   loop 9 invariant 0 <= iter9 && iter9 <= len(res) && n == old(n)
+//@   at call append#9 assert wfS(s) && freshLists(s)
 //@   loop 10 assumed invariant forall j int :: iter10 <= j && j < len(res) ==> wfS(res[j]) && freshLists(res[j])
 //@   loop 10 invariant 0 <= iter10 && iter10 <= len(res) && n == old(n)
+//@   at call append#10 assert wfS(s) && freshLists(s)
 //@   loop 11 assumed invariant forall j int :: iter11 <= j && j < len(res) ==> wfS(res[j]) && freshLists(res[j])
 //@   loop 11 invariant 0 <= iter11 && iter11 <= len(res) && n == old(n)
+//@   at call append#11 assert wfS(s) && freshLists(s)
 //@   loop 12 assumed invariant forall j int :: iter12 <= j && j < len(res) ==> wfS(res[j]) && freshLists(res[j])
 //@   loop 12 invariant 0 <= iter12 && iter12 <= len(res) && n == old(n)
+//@   at call append#12 assert wfS(s) && freshLists(s)
 //@   at call append#1 assert !canHave(s, "__name__")
 //@   at call append#1 assert forall x string :: x != "__name__" && canHave(res[iter1-1], x) ==> canHave(s, x)
 //@   at call append#1 assert subset(s.GuaranteedLabels, res[iter1-1].GuaranteedLabels)
